@@ -719,7 +719,11 @@ func ruleBase64DecodeFits(r *core.Report, ruleID, whyBad string) {
 				if !ok || !isLenCall(b.X) {
 					return 0
 				}
-				c2, _, ok := core.CallResult(b.Y)
+				y := b.Y
+				if gv := p.GlobalInit(y); gv != nil {
+					y = gv // a package-level variable initialised once from EncodedLen(...)
+				}
+				c2, _, ok := core.CallResult(y)
 				if !ok || core.CalleeName(c2.Common()) != "(*encoding/base64.Encoding).EncodedLen" {
 					return 0
 				}
